@@ -115,9 +115,11 @@ PROPS = {
         "assumptions": ["u32/usize modelled as Nat (no operation overflows for label_len <= 2^32-1)"],
     },
     "C01": {
-        "thm_module": ["AkdModel.Thm.C01a"],
+        "thm_module": ["AkdModel.Thm.C01a", "AkdModel.Thm.C01b"],
         "theorems": ["Akd.C01." + t for t in ["insert1_wf", "insert1_leaves", "wf_prefixFree", "wf_unique", "ofLeaves_spec",
-                                              "ofLeaves_perm", "rootHash_perm", "rootHash_injective"]],
+                                              "ofLeaves_perm", "rootHash_perm", "rootHash_injective",
+                                              "azksNew_repr", "batchInsert_refines", "emptyLabel_len",
+                                              "batchInsert_rootHash", "batchInsert_perm"]],
         "streams": ["l1.dir.c01", "l1.trie"],
         "rule": "random publish histories through the real Directory (batches of 0..12 from a label pool with the empty, "
                 "1-byte, 300-byte and prefix-related labels; empty/short/2 KiB values; 30% re-submissions; duplicate-label "
@@ -156,6 +158,45 @@ PROPS = {
                 "model's (as sets) and verified by the real audit_verify against the recorded published root hashes; oracle: "
                 "valid ranges verify, invalid ranges are refused",
         "assumptions": [],
+    },
+    "C16": {
+        "thm_module": ["AkdModel.Thm.C16"],
+        "theorems": ["Akd.Store." + t for t in ["inv_step", "inv_run", "inv_init", "get_eq_truth", "batchGet_eq_truth",
+                                                "flush_then_epoch", "rejected_write_witness"]],
+        "streams": ["l1.store"],
+        "rule": "random operation sequences (5..60 ops) through ONE real StorageManager over a fault-injecting database: "
+                "set/batch_set (15% rejected by the database), get/batch_get, the user-state queries, begin/commit/rollback, "
+                "flush, sleeps that outlive the 3 ms item lifetime; uncached / cached / 300-byte memory limit; every read is "
+                "compared with the model AND, by the oracle, with the same read issued through an uncached manager on the "
+                "database as it is at that moment (after committing the pending records when a transaction is open)",
+        "assumptions": ["cache timing is over-approximated in the model by a nondeterministic evict step enabled iff cleaning is enabled",
+                        "the model's atomic step is one storage-manager call (single task)"],
+    },
+    "C15": {
+        "thm_module": ["AkdModel.Thm.C16"],
+        "theorems": ["Akd.Store." + t for t in ["commit_exact", "get_txn_eq_commit", "userState_txn_eq_commit",
+                                                "userData_txn_eq_commit", "userVersions_txn_eq_commit", "rollback_discards",
+                                                "begin_refused", "versions_merge_witness", "inv_step"]],
+        "streams": ["l1.store"],
+        "rule": "the l1.store sequences (well-formed data: per user versions increase with epochs, rewriting a (user, epoch) "
+                "keeps its version) with committed and pending records for the same users; every read inside a transaction is "
+                "compared with the model and, by the oracle, with the same read on a copy of the database after committing the "
+                "pending records; every commit batch is compared with the pending records (epoch record last)",
+        "assumptions": [],
+    },
+    "C10": {
+        "thm_module": ["AkdModel.Thm.C16"],
+        "theorems": ["Akd.Store." + t for t in ["publish_fail_no_effect", "reads_after_failure", "commit_fail_pollutes_cache",
+                                                "root_read_after_commit_witness", "publish_fail_needs_readOnly", "inv_step"]],
+        "streams": ["l1.fault", "l1.store"],
+        "rule": "fault enumeration on the real Directory::publish: for publishes of every shape (first publish, inserts, "
+                "updates, mixed, on deeper trees), uncached and cached managers, sequential and parallel insertion, EVERY "
+                "storage-operation index k of the call is made to fail in turn from the same snapshot; after the error "
+                "(and after letting detached tasks run) the oracle checks on the same instance and on a fresh instance: "
+                "epoch hash unchanged, database equal to the snapshot, no transaction open, every label's lookup and history "
+                "and the audit of all epochs verify against the previous root, and a retry ends in the fault-free state; the "
+                "recorded trace must have the shape PublishIO.lean assumes (reads only before the commit write, nothing after it)",
+        "assumptions": ["the insertion is abstracted in the theorem to an arbitrary program of reads and transaction-log writes"],
     },
     "C20": {
         "thm_module": ["AkdModel.Thm.C05"],
